@@ -201,6 +201,15 @@ func c12ScenarioTable() []c12Scenario {
 			fld("work", "message").msg(cMessage("Addr2", fld("street", "string"))).ann("IsFlattenField", tru).ann("GetFlattenPrefix", constStr("work_")))
 		return map[string]Val{"message": m}
 	})
+	add("flattened child colliding with a parent field declared AFTER the flattened field", A, "ValidateFlattenCollisions", true, func() map[string]Val {
+		m := cMessage("Order", fld("shipping", "message").msg(cMessage("Addr", fld("city", "string"))).ann("IsFlattenField", tru), fld("city", "string"))
+		return map[string]Val{"message": m}
+	})
+	add("flattened child colliding with a parent field between two flattened fields", A, "ValidateFlattenCollisions", true, func() map[string]Val {
+		m := cMessage("Order", fld("shipping", "message").msg(cMessage("Addr", fld("zip", "string"))).ann("IsFlattenField", tru), fld("city", "string"),
+			fld("billing", "message").msg(cMessage("Addr2", fld("city", "string"))).ann("IsFlattenField", tru))
+		return map[string]Val{"message": m}
+	})
 	add("two flattened fields with the same prefix sharing a child name", A, "ValidateFlattenCollisions", true, func() map[string]Val {
 		m := cMessage("User", fld("home", "message").msg(cMessage("Addr", fld("street", "string"))).ann("IsFlattenField", tru).ann("GetFlattenPrefix", constStr("a_")),
 			fld("work", "message").msg(cMessage("Addr2", fld("street", "string"))).ann("IsFlattenField", tru).ann("GetFlattenPrefix", constStr("a_")))
